@@ -685,7 +685,7 @@ func pureCallee(in ssa.Instruction) *ssa.Function {
 		return nil
 	}
 	g := c.Common().StaticCallee()
-	if g == nil || curProg == nil || len(g.Blocks) < 2 || g.Parent() != nil || inlineStack[g] || inlineDepth >= maxInlineDepth {
+	if g == nil || curProg == nil || len(g.Blocks) == 0 || g.Parent() != nil || inlineStack[g] || inlineDepth >= maxInlineDepth {
 		return nil
 	}
 	if v, ok := pureMemo[g]; ok {
